@@ -59,6 +59,7 @@ SPEC = TreeSpec(
     ),
     profile=WIRE_CONFORMING,
     check=check,
+    size_sweep=True,
     nontrivial=nontrivial,
     sample_of=sample_of,
     assumptions=(
